@@ -3,12 +3,12 @@ import MindsVerif.Model.ModelJoin
 
 input (space separated tokens; strings are `~` + percent-encoded text):
   line    ::= nops operand* where using
-  operand ::= (tab|mod|sub) nparts part* alias jtype on target
+  operand ::= (tab|mod|sub) nparts part* alias jtype on target ninner
   alias   ::= - | A n part*
   on,where::= - | expr
   target  ::= - | str
   using   ::= - | G n (key value)*
-  expr    ::= C n qual* name | K v | P v | B op l r | W a b c | U op e | F name n arg* | O tag | S
+  expr    ::= C n qual* name | K v | P v | B op l r | W a b c | U op e | F name n arg* | O tag | S nsteps
 output: steps separated by " | ", or `exc:PlanningException` / `exc:NotImplementedError` -/
 open MindsVerif.ModelJoin
 
@@ -70,7 +70,7 @@ partial def rdE : List String → Option (E × List String)
     let (as, ts) ← takeN rdE n ts
     pure (.fn (dec nm) (mkArgs as), ts)
   | "O" :: tag :: ts => some (.opq (dec tag), ts)
-  | "S" :: ts => some (.sel, ts)
+  | "S" :: n :: ts => n.toNat?.map fun n => (.sel n, ts)
   | _ => none
 
 def rdOptE : List String → Option (Option E × List String)
@@ -95,7 +95,10 @@ def rdOperand : List String → Option (Operand × List String)
       | "-" :: ts => some (none, ts)
       | t :: ts => some (some (dec t), ts)
       | [] => none)
-    pure ({ kind := kind, parts := parts, alias := alias, jtype := jt, on := on, target := tg }, ts)
+    let (ni, ts) ← (match ts with
+      | t :: ts => t.toNat?.map fun n => (n, ts)
+      | [] => none)
+    pure ({ kind := kind, parts := parts, alias := alias, jtype := jt, on := on, target := tg, inner := ni }, ts)
   | _ => none
 
 def rdPair (ts : List String) : Option ((String × String) × List String) := do
@@ -135,7 +138,7 @@ partial def showE : E → String
   | .anil => "NIL"
   | .acons h t => s!"CONS {showE h} {showE t}"
   | .opq t => "O " ++ enc t
-  | .sel => "S"
+  | .sel n => s!"S {n}"
 
 def showOptE : Option E → String
   | none => "-"
@@ -149,13 +152,13 @@ partial def showStep : Step → String
   | .nested k => s!"nested({k})"
   | .fetch t w => s!"fetch(t={t};w={showOptE w})"
   | .inner t => s!"inner(t={t})"
-  | .subsel t i w => s!"sub(t={t};in={i};w={showOptE w})"
-  | .distinct i c => s!"dist(in={i};col={enc c})"
+  | .subsel t i w => s!"sub(t={t};in={i.show};w={showOptE w})"
+  | .distinct i c => s!"dist(in={i.show};col={enc c})"
   | .apply t i row ps cm =>
-    s!"apply(t={t};in={i};row={showDict enc row};params={showDict enc ps};map={showDict showE cm})"
-  | .join l r jt on => s!"join(l={l};r={r};type={enc jt};on={showOptE on})"
-  | .mr v sz subs => s!"mr(values={v};part={enc sz};[" ++ " ; ".intercalate (subs.map showStep) ++ "])"
-  | .query i w => s!"query(in={i};w={showE w})"
+    s!"apply(t={t};in={i.show};row={showDict enc row};params={showDict enc ps};map={showDict showE cm})"
+  | .join l r jt on => s!"join(l={l.show};r={r.show};type={enc jt};on={showOptE on})"
+  | .mr v sz subs => s!"mr(values={v.show};part={enc sz};[" ++ " ; ".intercalate (subs.map showStep) ++ "])"
+  | .query i w => s!"query(in={i.show};w={showE w})"
 
 def handle (line : String) : String :=
   match rdQuery ((line.trimAscii.toString.splitOn " ").filter (· ≠ "")) with
